@@ -54,8 +54,11 @@ def make_case(cid, rng, memk, tabk, nglob_imp, nglob_def, ndata, nelem, start, t
         val = b32(rng.choice([3, 5, 9])) if g == 0 else rng.choice(CONSTS[t])
         host_ops.append({"op": "hostglobal", "t": t, "b": val})
         gtypes.append((t, mut))
+    # an imported memory with or without a declared maximum; without one the embedder's memory may have any maximum
+    nomax = memk == "imported" and rng.random() < 0.4
+    hostmax = rng.choice([65536, 65536, 65535, 3]) if nomax else 2
     if memk == "imported":
-        imports.append(wire(rng, {"mod": "env", "name": "mem", "kind": "memory", "min": 1, "max": 2}, used))
+        imports.append(wire(rng, {"mod": "env", "name": "mem", "kind": "memory", "min": 1, "max": None if nomax else 2}, used))
     if tabk == "imported":
         imports.append(wire(rng, {"mod": "env", "name": "tab", "kind": "table", "min": 8, "max": 8}, used))
     for g in range(nglob_def):
@@ -149,7 +152,7 @@ def make_case(cid, rng, memk, tabk, nglob_imp, nglob_def, ndata, nelem, start, t
     maddr = taddr = 0
     nm = nt = 0
     if memk == "imported":
-        script.append({"op": "hostmem", "pages": 1, "max": 2, "shared": False})
+        script.append({"op": "hostmem", "pages": 1, "max": hostmax, "shared": False})
         nm += 1
         maddr = nm
     if tabk == "imported":
@@ -168,7 +171,7 @@ def make_case(cid, rng, memk, tabk, nglob_imp, nglob_def, ndata, nelem, start, t
                 nhost_g += 1
                 g2.append(nhost_g)
             if memk == "imported":
-                script.append({"op": "hostmem", "pages": 1, "max": 2, "shared": False})
+                script.append({"op": "hostmem", "pages": 1, "max": hostmax, "shared": False})
                 nm += 1 + (0)
                 m2 = nm + (1 if memk == "defined" else 0)
             if tabk == "imported":
